@@ -129,28 +129,43 @@ func c20(r *core.Run) {
 	start := time.Now()
 	defer func() { r.Advance(time.Since(start)) }()
 	k := NewSimKMS(r)
-	k.Paging = r.Intn(4, "paging")
+	k.Paging = r.Intn(5, "paging")
 	m := &gcpkms.Manager{Project: "p", Location: "l", KeyRingID: "ring", KeyClient: k, IAMClient: &SimIAM{K: k}}
 	ring := m.FullKeyRingName()
 	k.Rings[ring] = true
 	signer := &gcpkms.Signer{Manager: m}
 	delay := time.Duration(r.Intn(121, "gen-delay-s")) * time.Second
 	outcome := []kmspb.CryptoKeyVersion_CryptoKeyVersionState{kmspb.CryptoKeyVersion_ENABLED, kmspb.CryptoKeyVersion_ENABLED, kmspb.CryptoKeyVersion_ENABLED,
-		kmspb.CryptoKeyVersion_GENERATION_FAILED, kmspb.CryptoKeyVersion_DESTROYED}[r.Intn(5, "gen-outcome")]
+		kmspb.CryptoKeyVersion_GENERATION_FAILED, kmspb.CryptoKeyVersion_DESTROYED, kmspb.CryptoKeyVersion_DISABLED}[r.Intn(6, "gen-outcome")]
 	k.GenDelay = func() time.Duration { return delay }
 	k.GenOutcome = func() kmspb.CryptoKeyVersion_CryptoKeyVersionState { return outcome }
 	deadline := time.Duration(20+r.Intn(400, "deadline-s")) * time.Second
 	base := output.NewContext(context.Background(), &output.Options{Quiet: true, KeepGoing: true, Overwrite: true})
+	// Some callers (the CLI) pass a context without a deadline: termination must not depend on one.
+	noDeadline := r.Chance(30, "no-deadline?")
 	ctx, cancel := context.WithTimeout(base, deadline)
+	if noDeadline {
+		cancel()
+		ctx, cancel = context.WithCancel(base)
+	}
 	defer cancel()
 	k.Exceeded = func() {
 		nk, nv := k.Population(ring)
-		r.Fail("non-termination", "listing-loop", "the operation issued more than %d RPCs for %d keys / %d versions and %d polls (paging policy %d): it is not terminating", k.Bound, nk, nv, k.Polls, k.Paging)
+		key := "listing-loop"
+		if k.Polls*2 > k.Calls {
+			key = "polling-loop"
+		}
+		r.Fail("non-termination", key, "the operation issued more than %d RPCs for %d keys / %d versions and %d polls (paging policy %d): it is not terminating", k.Bound, nk, nv, k.Polls, k.Paging)
 	}
 	setBound := func() {
 		nk, nv := k.Population(ring)
-		// polls: at most one per 5 simulated seconds until the deadline, plus slack
-		k.Bound = k.Calls + 4*(nv+nk) + int(deadline/(5*time.Second)) + 32
+		// polls: at most one per 5 simulated seconds until the deadline (or, without a deadline,
+		// until generation is over), plus slack
+		polls := int(deadline / (5 * time.Second))
+		if noDeadline {
+			polls = int(delay/(5*time.Second)) + int(90/5) + 2
+		}
+		k.Bound = k.Calls + 4*(nv+nk) + polls + 32
 	}
 	pop := func(label string) int {
 		if r.Chance(25, label+"-random?") {
